@@ -215,6 +215,111 @@ def rand_molecule(rng, max_heavy=14, first=None):
 
 
 # ------------------------------------------------------------------------------------------
+# small hetero rings, written in several ways, and chain-pattern configurations
+
+def hetero_ring(rng):
+    """a 3-6 membered ring with one or two of O / N / S in it and substituents on ring atoms (ids 0..n-1)"""
+    n = rng.randint(3, 6)
+    syms = ["C"] * n
+    k = 2 if n >= 5 and rng.random() < 0.35 else 1
+    for pos in rng.sample(range(n), k):
+        syms[pos] = rng.choice(["O", "O", "N", "S"])
+    g = nx.Graph()
+    for i, sy in enumerate(syms):
+        g.add_node(i, symbol=sy)
+    for i in range(n):
+        g.add_edge(i, (i + 1) % n, bond=1)
+    subs = ["C", "C", "C", "CC", "CCC", "O", "N", "CO", "C(C)C", "C=O", "OC", "CCO", "CN"]
+    for i in range(n):
+        free = _free(g, i) if syms[i] != "S" else 0
+        for _ in range(int(free)):
+            if rng.random() < (0.45 if syms[i] == "C" else 0.3):
+                f = _frag(rng.choice(subs))
+                off = max(g.nodes) + 1
+                f = nx.relabel_nodes(f, {m: m + off for m in f.nodes})
+                g = nx.union(g, f)
+                g.add_edge(i, off, bond=1)
+    return g
+
+
+def write_smiles(g, rng):
+    """one of the many SMILES writings of a connected graph with upper-case symbols and bond orders 1/2/3: random start
+    atom, random neighbour order; ring closures by digits.  Parsing different writings of one molecule yields different
+    node numberings AND different adjacency orders"""
+    bsym = {1: "", 2: "=", 3: "#"}
+    start = rng.choice(list(g.nodes))
+    parent, order, children = {start: None}, [], {}
+    closures = {}          # node -> list of (digit, bond symbol)
+    counter = [0]
+
+    def dfs(u):
+        order.append(u)
+        nbrs = list(g.neighbors(u))
+        rng.shuffle(nbrs)
+        children[u] = []
+        for v in nbrs:
+            if v == parent[u]:
+                continue
+            if v in parent:
+                if (v, u) not in seen_back and (u, v) not in seen_back:
+                    seen_back.add((u, v))
+                    counter[0] += 1
+                    d = counter[0]
+                    closures.setdefault(v, []).append((d, ""))                       # opened at the earlier atom
+                    closures.setdefault(u, []).append((d, bsym[g.edges[u, v]["bond"]]))  # closed here, bond symbol here
+                continue
+            parent[v] = u
+            children[u].append(v)
+            dfs(v)
+    seen_back = set()
+    dfs(start)
+    if counter[0] > 9:
+        raise ValueError("too many rings")
+
+    def emit(u):
+        t = g.nodes[u]["symbol"]
+        for d, b in closures.get(u, []):
+            t += b + str(d)
+        ch = children[u]
+        for i, v in enumerate(ch):
+            piece = bsym[g.edges[u, v]["bond"]] + emit(v)
+            t += piece if i == len(ch) - 1 else "(" + piece + ")"
+        return t
+    return emit(start)
+
+
+def chain_configs(rng, hetero):
+    """a user configuration of chain patterns of depth 1-4 from a hetero anchor: a deep pattern (depth >= 3) together with
+    its shorter prefixes as less specific groups"""
+    x = rng.choice(hetero)
+    y = rng.choice(["O", "N", "S", "C"])
+    kind = rng.choice(["plain", "plain", "R", "two"])
+    if kind == "plain":
+        pats = ["C" * d + x for d in range(1, 5)]                # CO CCO CCCO CCCCO
+    elif kind == "R":
+        pats = ["R" + "C" * d + x for d in range(0, 4)]          # RO RCO RCCO RCCCO
+    else:
+        pats = [x + "C" * d + y for d in range(1, 4)] + [x + "C"]   # OCN OCCN OCCCN OC
+    deep = [p for p in pats if len(p.replace("R", "")) >= 4]
+    keep = [rng.choice(deep)] + [p for p in pats if p not in deep and rng.random() < 0.75]
+    keep += [p for p in deep if p not in keep and rng.random() < 0.5]
+    keep = list(dict.fromkeys(keep))
+    rng.shuffle(keep)
+    from fgutils.parse import parse
+    ga_mode = rng.choice(["all", "all", "hetero", "nonR"])
+    specs = []
+    for i, p in enumerate(keep):
+        s = {"name": "ch%d_%s" % (i, p), "pattern": p}
+        gp = parse(p)
+        if ga_mode == "hetero":
+            s["group_atoms"] = [n for n, d in gp.nodes(data=True) if d["symbol"] not in ("C", "R", "H")]
+        elif ga_mode == "nonR":
+            s["group_atoms"] = [n for n, d in gp.nodes(data=True) if d["symbol"] != "R"]
+        specs.append(s)
+    return specs
+
+
+# ------------------------------------------------------------------------------------------
 # implementation, in process
 
 def make_configs(specs):
@@ -232,8 +337,55 @@ def make_configs(specs):
     return out
 
 
-def tree_view(roots):
-    """(root names in order, {name: (children names in order, parent names as given)})"""
+def labels_of(specs):
+    """one label per configuration, unique within the list and independent of the order of the list.  Nothing in FGConfig
+    forbids two groups with the same name, so groups are identified by POSITION (object identity on the Python side) and
+    handed to the model under these labels: the name where it is unique, else name|pattern (else name|pattern|position)"""
+    names = [s["name"] for s in specs]
+    out = []
+    for i, s in enumerate(specs):
+        if names.count(s["name"]) == 1:
+            out.append(s["name"])
+            continue
+        lab = "%s|%s" % (s["name"], s["pattern"])
+        if sum(1 for t in specs if t["name"] == s["name"] and t["pattern"] == s["pattern"]) > 1:
+            lab += "|%d" % i
+        out.append(lab)
+    return out
+
+
+def dup_names(rng, specs, pats=None):
+    """give two (rarely three) groups of the list the same name -- nothing in FGConfig forbids it.  pats: patterns whose
+    groups should share the name (e.g. two covering parents of a third group); default: a random choice"""
+    if len(specs) < 2:
+        return specs
+    if pats:
+        idx = [i for i, s in enumerate(specs) if s["pattern"] in pats]
+    else:
+        idx = []
+    if len(idx) < 2:
+        idx = rng.sample(range(len(specs)), 3 if len(specs) > 3 and rng.random() < 0.2 else 2)
+    nm = rng.choice(["cls", specs[idx[0]]["name"]])
+    for i in idx:
+        specs[i]["name"] = nm
+    return specs
+
+
+def has_dup_names(specs):
+    names = [s["name"] for s in specs]
+    return len(set(names)) < len(names)
+
+
+def tree_view(roots, configs=None, labels=None):
+    """(root labels in order, {label: (children labels in order, parent labels as given)}); a node is identified by its
+    FGConfig OBJECT (position in the configuration list), not by its name"""
+    lab = {}
+    if configs is not None:
+        for cfg, l in zip(configs, labels):
+            lab[id(cfg)] = l
+
+    def L(n):
+        return lab.get(id(n.fgconfig), n.fgconfig.name)
     seen = {}
     order = []
 
@@ -248,11 +400,11 @@ def tree_view(roots):
         walk(r)
     nodes = {}
     for n in order:
-        nm = n.fgconfig.name
+        nm = L(n)
         if nm in nodes:
-            raise ct.Unrepresentable("two tree nodes named %r" % nm)
-        nodes[nm] = ([c.fgconfig.name for c in n.children], [p.fgconfig.name for p in n.parents])
-    return [r.fgconfig.name for r in roots], nodes
+            raise ct.Unrepresentable("two tree nodes labelled %r" % nm)
+        nodes[nm] = ([L(c) for c in n.children], [L(p) for p in n.parents])
+    return [L(r) for r in roots], nodes
 
 
 def _exc(e):
@@ -269,19 +421,25 @@ def run_tree(specs, via="build", default=False):
             for s in specs:
                 d = {k: (list(v) if isinstance(v, list) else v) for k, v in s.items()}
                 dicts.append(d)
-            roots = FGConfigProvider(dicts).get_tree()
+            prov = FGConfigProvider(dicts)
+            cfgs = prov.config_list
+            roots = prov.get_tree()
         elif via == "provider":
             # no mapper argument: the provider's documented fallback PermutationMapper(wildcard="R", ignore_case=True)
-            roots = FGConfigProvider(make_configs(specs)).get_tree()
+            cfgs = make_configs(specs)
+            roots = FGConfigProvider(cfgs).get_tree()
         elif via == "provider-mapper":
-            roots = FGConfigProvider(make_configs(specs), mapper=PermutationMapper(wildcard="R", ignore_case=True)).get_tree()
+            cfgs = make_configs(specs)
+            roots = FGConfigProvider(cfgs, mapper=PermutationMapper(wildcard="R", ignore_case=True)).get_tree()
         elif via == "query":
             # the tree an FGQuery builds for a list: FGQuery hands ITS mapper to the provider
             from fgutils.query import FGQuery
-            roots = FGQuery(config=make_configs(specs)).config_provider.get_tree()
+            cfgs = make_configs(specs)
+            roots = FGQuery(config=cfgs).config_provider.get_tree()
         else:
-            roots = build_config_tree_from_list(make_configs(specs), PermutationMapper(wildcard="R", ignore_case=True))
-        return ("ok", tree_view(roots))
+            cfgs = make_configs(specs)
+            roots = build_config_tree_from_list(cfgs, PermutationMapper(wildcard="R", ignore_case=True))
+        return ("ok", tree_view(roots, cfgs, labels_of(specs)))
     except (AssertionError, KeyError, IndexError, ValueError, TypeError) as e:
         return _exc(e)
 
@@ -451,16 +609,18 @@ def graph_term_of(pattern):
     return _GTERM[pattern]
 
 
-def cfg_term(s):
+def cfg_term(s, label=None):
     ga = "None" if "group_atoms" not in s else "(Some %s)" % zlist(s["group_atoms"])
     excl = s.get("len_exclude_nodes", ["R"])
     return "(fgconfig_init %s %s %s %s (%s : list graph) None %s)" % (
-        ct.s(s["name"]), ct.s(s["pattern"]), graph_term_of(s["pattern"]), ga,
+        ct.s(label if label is not None else s["name"]), ct.s(s["pattern"]), graph_term_of(s["pattern"]), ga,
         ct.lst([graph_term_of(a) for a in s.get("anti_pattern", [])]), slist(excl))
 
 
-def cfgs_term(specs):
-    return "(%s : list fgconfig)" % ct.lst([cfg_term(s) for s in specs])
+def cfgs_term(specs, labelled=False):
+    """labelled=True: the configurations under their unique labels (labels_of) instead of their names"""
+    labs = labels_of(specs) if labelled else [None] * len(specs)
+    return "(%s : list fgconfig)" % ct.lst([cfg_term(s, l) for s, l in zip(specs, labs)])
 
 
 ERR = {"AssertionError": "AssertErr", "KeyError": "KeyErr", "IndexError": "IndexErr", "ValueError": "ValueErr",
